@@ -34,7 +34,8 @@ ASSUMPTIONS = ['fleet members are compared with each other (no reference model);
 REAL = common.REAL_ALL
 STUBS = common.STUBS_ALL
 PROBES = ['period_unit_omitted', 'sampling_period_set_before_unit', 'unit_on_one_end_only', 'mixed_units_in_one_interval', 'default_unit_not_s', 'period_unit_differs_from_default_unit',
-          'pastified', 'dense_fleet', 'non_multiple_bound', 'non_multiple_rejected_at_parse_or_pastify', 'non_multiple_rejected_at_first_evaluation']
+          'pastified', 'dense_fleet', 'non_multiple_bound', 'non_multiple_rejected_at_parse_or_pastify', 'non_multiple_rejected_at_first_evaluation',
+          'same_numerals_different_unit']
 
 TICKS = [
     [(1, 's'), (1000, 'ms'), (1000000, 'us'), (1000000000, 'ns')],
@@ -47,8 +48,48 @@ TICKS = [
 ]
 
 
+def gen_same_numerals(rng):
+    """directed fleet: one formula with two bounded operators over the same operand whose intervals are written with the
+    same numerals and differ only in a unit ([1:2ms] and [1:2s]); the other member writes both in ticks"""
+    fine, coarse = rng.choice([('ms', 's'), ('us', 'ms'), ('ns', 'us')])
+    vars_ = common.VARS[:rng.randint(1, 2)]
+    mode = rng.choice(['offline', 'online', 'online'])
+    # (bounded since/until cost at least one operator or one pass per step of the window: too slow for a 1000-fold window)
+    op = rng.choice(['once_b', 'historically_b'] + (['eventually_b', 'always_b'] if mode == 'offline' else []))
+
+    def pr():
+        return ['pred', rng.choice(['>=', '<=']), ['var', rng.choice(vars_)], ['const', rng.choice(sg.LATTICE)]]
+    x = pr() if rng.random() < 0.6 else [rng.choice(['and', 'or']), pr(), pr()]
+    y = pr()
+    lo = rng.randint(0, 2)
+    hi = lo + rng.randint(1, 2)
+    where = rng.choice(['end', 'begin', 'both-end', 'both-begin'])
+    if where == 'end':          # [lo:hi fine] / [lo:hi coarse]: a unit on the end only is inherited by the begin
+        t1, t2, i2 = '[%d:%d%s]' % (lo, hi, fine), '[%d:%d%s]' % (lo, hi, coarse), (1000 * lo, 1000 * hi)
+    elif where == 'begin':
+        t1, t2, i2 = '[%d%s:%d]' % (lo, fine, hi), '[%d%s:%d]' % (lo, coarse, hi), (1000 * lo, 1000 * hi)
+    elif where == 'both-end':
+        t1, t2, i2 = '[%d%s:%d%s]' % (lo, fine, hi, fine), '[%d%s:%d%s]' % (lo, fine, hi, coarse), (lo, 1000 * hi)
+    else:
+        t1, t2, i2 = '[%d%s:%d%s]' % (lo, fine, hi + 1000, fine), '[%d%s:%d%s]' % (lo, coarse, hi + 1000, fine), (1000 * lo, hi + 1000)
+        hi = hi + 1000
+    mk = (lambda l, h: [op, l, h, x, y]) if op in sg.TBIN else (lambda l, h: [op, l, h, x])
+    a1, a2 = mk(lo, hi), mk(i2[0], i2[1])
+    ast = [rng.choice(['and', 'or', 'implies']), a1, a2] if rng.random() < 0.5 else [rng.choice(['and', 'or', 'implies']), a2, a1]
+    table = {(lo, hi): t1, i2: t2}
+    nt_a = {'period': 1, 'pu': fine, 'du': fine, 'tol': 0.1, 'style': 'plain'}
+    nt_b = dict(nt_a, style='random')
+    text_a = 'out = ' + sg.to_text(ast, None, units.bounds_printer(nt_a, None)) + ';'
+    text_b = 'out = ' + sg.to_text(ast, None, lambda l, h, sp: table[(l, h)]) + ';'
+    n = rng.randint(3, 9)
+    return {'kind': 'fleet', 'mode': mode, 'vars': vars_, 'ast': ast, 'fleet': [nt_a, nt_b], 'texts': [text_a, text_b], 'n': n,
+            'data': world.gen_trace(rng, vars_, n), 'same_numerals': True}
+
+
 def gen(rng, tier):
     r = rng.random()
+    if r < 0.08:
+        return gen_same_numerals(rng)
     if r < 0.15:
         return gen_nonmultiple(rng)
     if r < 0.35:
@@ -234,6 +275,8 @@ def run(sc):
         r.probes['period_unit_differs_from_default_unit'] += 1
     if mode == 'pastified':
         r.probes['pastified'] += 1
+    if sc.get('same_numerals') and all(sc['texts']):
+        r.probes['same_numerals_different_unit'] += 1
     if any(nt.get('omit_unit') and nt['pu'] == 's' and units.spec_config(nt).get('sampling') for nt in sc['fleet']):
         r.probes['period_unit_omitted'] += 1
     if any(nt.get('sampling_first') and nt.get('du') for nt in sc['fleet']):
